@@ -12,6 +12,7 @@ import (
 	"fmt"
 	"os"
 	"strings"
+	"time"
 
 	"compiler/verifh/c01"
 	"compiler/verifh/c04"
@@ -205,6 +206,9 @@ func variants(p *fl.Program, quick bool) []variant {
 			if quick && at != 0 && end != len(*list) && !(end < len(*list) && returnsValue((*list)[end]) && (at == end-1)) {
 				continue
 			}
+			if quick && len(*list) > 8 && !(at == 0 || at == len(*list)/2 || at >= len(*list)-2) {
+				continue // long statement lists (the operation sequences): whole, second half, last two
+			}
 			ws = append(ws, wsite{li, at, end})
 		}
 		li++
@@ -310,6 +314,8 @@ func Run(c *vl.Ctx) {
 	}
 	r := prog.New(c)
 	r.Prefilter = true
+	t0 := time.Now()
+	defer func() { c.Count("seconds_total", int64(time.Since(t0).Seconds())) }()
 	// A base and its variants declare the same names, so they cannot share a packed program:
 	// cases are observed in the order (rank within the base, base), which puts 48 different
 	// bases into every pack.
@@ -363,6 +369,11 @@ func Run(c *vl.Ctx) {
 		bo, vo := obs[pr.basePos], obs[pr.varPos]
 		c.Count("rewrite:"+v.kind, 1)
 		c.Distinct(k.ID)
+		if bo.Accepted && !vo.Accepted && strings.Contains(vo.Reject, "fixed array index must be a compile-time constant") && hasFixedArrayIndex(k.P) {
+			// the documented exception, as the front end states it: nothing to confirm
+			c.Outcome(v.kind + ":documented-constant-index-rejection")
+			continue
+		}
 		if !same(bo, vo) {
 			// confirm on single-case programs before believing it
 			if !bo.Alone {
